@@ -382,4 +382,61 @@ def r3_layering(a, tier):
     return rep
 
 
-RULES = [r1_placement, r2_next_token_fixpoint, r2_matchers, r3_layering]
+def r2c_input_configuration(a, tier):
+    rep = RuleReport(
+        'C09.R2c',
+        'both input implementations derive their skipping configuration the same way (interpreted): build_whitespace_re maps '
+        'Undefined to the default whitespace regex, None and the empty string to "skip nothing", a compiled regex to itself and a '
+        'string to its compilation; nameguard is the explicit setting when given (True/False), otherwise on iff whitespace is '
+        'skipped or @@namechars are given',
+        floor=30,
+    )
+    import re as _re
+    impls = ['tatsu.input.textlines.TextLines', 'tatsu.input.buffer.Buffer']
+    und = object()
+    default = _re.compile('DEFAULT')
+    given = _re.compile(r'[ ]+')
+    table = [('Undefined', und, default), ('None', None, None), ("''", '', None), ('compiled regex', given, given),
+             ("'\\s+'", r'\s+', ('compiled', r'\s+')), ("' '", ' ', ('compiled', ' '))]
+    for c in impls:
+        bw = a.p.func(f'{c}.build_whitespace_re')
+        for what, val, want in table:
+            ev = MiniEval({'Undefined': und, 'DEFAULT_WHITESPACE_RE': default, 're': Obj(Pattern=_re.Pattern)}, calls={'cached_re_compile': lambda s_: ('compiled', s_)})
+            try:
+                got = ev.call_function(bw.node, [val])
+            except Unsupported as e:
+                raise AnalysisError(f'cannot interpret {bw.qualname}: {e}') from e
+            ok = got == want if not isinstance(want, _re.Pattern) else got is want
+            rep.add({'fn': bw.qualname, 'whitespace_setting': what, 'result': 'default regex' if got is default else repr(got), 'ok': ok})
+            if not ok:
+                rep.fail(bw.qualname, f'whitespace:{what}', f'{c.split(".")[-1]}.build_whitespace_re({what}) gives {got!r}; documented: '
+                         f'{"the default whitespace regex" if want is default else repr(want)}', bw.loc)
+        init = a.p.func(f'{c}.__init__')
+        expr = None
+        for n in walk_no_defs(init.node):
+            if isinstance(n, ast.Assign) and norm(n.targets[0]) == 'self.nameguard':
+                expr = n.value
+        if expr is None:
+            raise AnalysisError(f'{init.qualname}: assignment to self.nameguard not found')
+        cfgname = next((p_ for p_ in init.params if 'config' in p_), 'config')
+        for ng in (None, True, False):
+            for ws in (None, given):
+                for nc in ('', '-', None):
+                    env = {'self': Obj(whitespace_re=ws), cfgname: Obj(nameguard=ng, namechars=nc, whitespace=ws)}
+                    for k_, v_ in list(env.items()):
+                        env.setdefault('config', env[cfgname])
+                    try:
+                        got = MiniEval({}).expr(expr, env)
+                    except Unsupported as e:
+                        raise AnalysisError(f'cannot interpret the nameguard derivation of {c}: {e}') from e
+                    want = ng if ng is not None else (ws is not None or bool(nc))
+                    rep.add({'input': c.split('.')[-1], 'nameguard_setting': ng, 'skips_whitespace': ws is not None, 'namechars': nc,
+                             'nameguard': got, 'want': want})
+                    if bool(got) != want or (ng is not None and got is not ng):
+                        rep.fail(init.qualname, f'nameguard:{ng}:{ws is not None}:{nc!r}', f'{c.split(".")[-1]}: nameguard setting {ng}, whitespace '
+                                 f'{"skipped" if ws is not None else "not skipped"}, namechars {nc!r} -> nameguard={got}; required {want} '
+                                 f'(the explicit setting wins; otherwise on iff whitespace is skipped or namechars are given)', init.loc)
+    return rep
+
+
+RULES = [r1_placement, r2_next_token_fixpoint, r2_matchers, r2c_input_configuration, r3_layering]
